@@ -52,6 +52,48 @@ def _representation_changed(ctx, rid):
                 "representation and cannot judge another one" % rid)
 
 
+def apply_once_copy_over(ctx):
+    """representation anchor: the rules describe the protocol 'apply the functor to one copy, switch the readers, drain,
+    apply it to the other copy'.  A writer that applies the functor ONCE and brings the other copy up to date by
+    assigning it from the first (outside any exception handler) follows another protocol; these rules cannot judge it.
+    Returns the text of that finding, or None."""
+    fb = ctx.fb
+    once = [f for f in writer_functions(ctx) if len(_applications(f)) == 1]
+    if not once:
+        return None
+    for g in fb.functions(rec=LR):
+        if g.kind in ("ctor", "dtor"):
+            continue
+        handler_ids = set()
+        for t in [s for s in g.stmts.values() if s["k"] == "CXXCatchStmt"]:
+            handler_ids |= {d["id"] for d in g.descendants(t)}
+        for st in g.stmts.values():
+            if st["id"] in handler_ids or not (st["k"] in ("BinaryOperator", "CXXOperatorCallExpr") and st.get("op") == "="):
+                continue
+            ch = g.children(st) if st["k"] == "BinaryOperator" else [g.s(a) for a in st["args"]]
+            if len(ch) != 2:
+                continue
+            sides = []
+            for c in ch:
+                p = path(g, c) or ""
+                pp = ptr_of(g, c)
+                tgt = None
+                if p in ("this.m_left", "this.m_right"):
+                    tgt = p
+                elif pp:
+                    # a pointer chosen between the two copies
+                    for s2 in g.stmts.values():
+                        if s2["k"] == "DeclStmt":
+                            for d in s2["decls"]:
+                                if "l:" + d["name"] == pp and d.get("init") and any(
+                                        x["k"] == "MemberExpr" and x["m"].get("name") in ("m_left", "m_right") for x in g.descendants(g.s(d["init"]))):
+                                    tgt = pp
+                sides.append(tgt)
+            if all(sides) and sides[0] != sides[1]:
+                return "%s applies the functor once and %s assigns one copy from the other at %s" % (once[0].name, g.name, g.loc(st))
+    return None
+
+
 def writer_functions(ctx):
     """the writer operations of lr_guarded: modify(), and whatever else (added later) stores a protocol flag or uses one
     of the two copies as non-const - each of them is held to the whole writer protocol"""
@@ -98,6 +140,17 @@ def counters_are_atomics(ctx):
 
 
 def run(ctx):
+    other = apply_once_copy_over(ctx)
+    if other:
+        ctx.unknown("C03: %s: a writer protocol other than apply / switch / drain / apply; the rules that follow the two "
+                    "applications cannot judge it" % other)
+        ctx.step(reader_rules, ctx)
+        ctx.step(deleter_rules, ctx)
+        ctx.step(who, ctx)
+        ctx.step(common.init_order, ctx, "C03.init", [LR], floor=4)
+        ctx.step(initial_state, ctx)
+        ctx.step(common.witnesses, ctx, "C03.witness", ["C03"])
+        return
     if not counters_are_atomics(ctx):
         ctx.unknown("C03: lr_guarded's reader counters are no longer plain std::atomic integers; the rules that follow "
                     "registration, drain and release through them describe that representation and cannot judge another one")
@@ -612,6 +665,10 @@ def lr_handlers(ctx, rid="C20.lr"):
     fs = writer_functions(ctx)
     if not fs:
         ctx.broken("lr_guarded::modify not instantiated")
+    other = apply_once_copy_over(ctx)
+    if other:
+        ctx.unknown("%s: %s: a writer protocol other than apply / switch / drain / apply" % (rid, other))
+        return
     for f in fs:
         tries = [s for s in f.stmts.values() if s["k"] == "CXXTryStmt"]
         applies = [s for s in f.stmts.values() if s["k"] == "CXXOperatorCallExpr" and s.get("op") == "()" and len(s["args"]) >= 2
